@@ -2,7 +2,8 @@
 # tools/dev.sh <check args...>  - development run against a scratch copy of /verif
 # (/tmp/dev/verif) and a scratch worktree of /repo (/tmp/dev/repo), so that a
 # check running in /verif against /repo is not disturbed. Nothing it writes is evidence.
+# DEV_NOSYNC=1: use /tmp/dev/verif as it is (edit there while /verif is busy, copy back afterwards).
 mkdir -p /tmp/dev/verif
-rsync -a --delete --exclude build --exclude 'build-*' --exclude .git /verif/ /tmp/dev/verif/
+[ -n "${DEV_NOSYNC:-}" ] || rsync -a --delete --exclude build --exclude 'build-*' --exclude .git /verif/ /tmp/dev/verif/
 [ -d /tmp/dev/repo ] || git -C /repo worktree add --detach /tmp/dev/repo HEAD >/dev/null 2>&1
 cd /tmp/dev/verif && VERIF_REPO="${VERIF_REPO:-/tmp/dev/repo}" exec ./check "$@"
